@@ -46,7 +46,7 @@ class C09(PropBase):
     lean_modules = ["SqModel.Props.C09"]
     rule = ("TC19 subtype 1/2 squitters over a stratified grid of east/north sign+magnitude fields (all boundaries 0,1,2,1022,1023, "
             "the exact 45-degree directions, random), all 2x512 vertical-rate codes, random other bits; DF::from_message and the "
-            "row after the frame (creating / later, -U/-R on/off). Expected values: exact integer square root and an exact "
+            "row after the frame (creating / after a DF11 / after another velocity squitter with different values, -U/-R on/off). Expected values: exact integer square root and an exact "
             "(60-digit) floor(atan2) computed here, and the Lean spec line. Non-trivial = both components present; distinct by frame.")
     assumptions = ["f64 sqrt/atan2/to_degrees are modelled: the model takes atan2deg as a parameter; the implementation's track is "
                    "compared with a 60-digit evaluation on every generated frame"]
@@ -111,7 +111,7 @@ class C09(PropBase):
         # the row: creating frame and later frame, both paths
         sub = list(range(0, len(frames), max(1, len(frames) // (3000 if tier == "quick" else 40000))))
         for (u, r) in gen.ALL_CFGS:
-            for first in (False, True):
+            for first in (False, True, "tc19"):
                 addrs = [0x710000 + j for j in range(len(sub))]
                 fs = []
                 for j, i in enumerate(sub):
@@ -119,8 +119,10 @@ class C09(PropBase):
                     me = int(f[8:22], 16)
                     fs.append(F.df17(5, addrs[j], me))
                 ops = ["reset", gen.cfg_op(use_update=u, relaxed=r), "case 0"]
-                if not first:
-                    ops += gen.seg([F.df11(5, a, 0) for a in addrs])
+                prior = (lambda a: F.df11(5, a, 0)) if not first else \
+                        (lambda a: F.df17(5, a, F.me_velocity(1, 0, 0, 0, 1, 301, 0, 417, 0, 1, 14, 0, 9)))
+                if first is not True:
+                    ops += gen.seg([prior(a) for a in addrs])
                 ops += gen.seg(fs) + ["dump"]
                 impl, _, model = run.execute(ops, model=driver_ok)
                 rep.evaluations += len(fs); rep.traces += 1
@@ -132,7 +134,7 @@ class C09(PropBase):
                     got = (d.get("track"), d.get("gs"), d.get("vrate"))
                     if not same(got, exp[i]):
                         self.fail(rep, f"row after velocity squitter {fs[j]} shows track/gs/vrate {got}, expected {exp[i]} ({ctx})",
-                                  {"ops": ["reset", gen.cfg_op(use_update=u, relaxed=r)] + ([] if first else gen.seg([F.df11(5, addrs[j], 0)]))
+                                  {"ops": ["reset", gen.cfg_op(use_update=u, relaxed=r)] + ([] if first is True else gen.seg([prior(addrs[j])]))
                                    + gen.seg([fs[j]]) + ["dump"], "frame": fs[j], "expected": list(exp[i]), "address": addrs[j], "context": ctx})
                         return
                     rep.nontriv((fs[j], u, r, first))
